@@ -228,6 +228,52 @@ def tie_rich(rng, fam):
     raise ValueError(fam)
 
 
+def near_tie(rng):
+    """A triangle / small clique with weights 1 + k * 1.4e-6 (k = 0, 1, 2, ...: similarities within a relative 1e-6 of
+    each other but not equal) placed on random indices of a graph with 8..32 nodes.  CPython iterates a small set
+    of ints by index mod 8, so placements whose residues mod 8 DEcrease while the indices INcrease (a node meets its
+    higher-indexed neighbour first) and placements with equal residues are over-sampled.  The other nodes are
+    isolated or carry a few unit edges among themselves."""
+    n = rng.randint(8, 32)
+    k = rng.choice([3, 3, 3, 4])
+    mode = rng.choice(['descending', 'descending', 'same_residue', 'random'])
+    nodes = None
+    if mode == 'descending':
+        for _ in range(50):
+            res = sorted(rng.sample(range(8), k), reverse=True)
+            cand, lo = [], -1
+            for r_ in res:
+                opts = [i for i in range(n) if i % 8 == r_ and i > lo]
+                if not opts:
+                    break
+                lo = rng.choice(opts[:2])
+                cand.append(lo)
+            if len(cand) == k:
+                nodes = cand
+                break
+    elif mode == 'same_residue':
+        r_ = rng.randrange(8)
+        opts = [i for i in range(n) if i % 8 == r_]
+        if len(opts) >= k:
+            nodes = sorted(rng.sample(opts, k))
+    if nodes is None:
+        nodes = sorted(rng.sample(range(n), k))
+    pairs = [(nodes[a], nodes[b]) for a in range(k) for b in range(a + 1, k)]
+    ks = list(range(len(pairs)))
+    if rng.random() < 0.5:
+        rng.shuffle(ks)
+    k0 = rng.choice([0, 0, 1])
+    E = [(i, j, 1 + (k0 + q) * 1.4e-6) for (i, j), q in zip(pairs, ks)]
+    others = [i for i in range(n) if i not in nodes]
+    if rng.random() < 0.5:
+        for _ in range(rng.randint(1, 5)):
+            if len(others) >= 2:
+                a, b = sorted(rng.sample(others, 2))
+                if not any(e[0] == a and e[1] == b for e in E):
+                    E.append((a, b, 1))
+    return n, E, mode
+
+
 def rtree(rng, leaves):
     if len(leaves) == 1:
         return ['L', leaves[0]]
@@ -303,7 +349,8 @@ def run(ctx, scratch):
     rng = ctx.rng
     quick = ctx.tier == 'quick'
     nmax = 12 if quick else 40
-    stats = dict(paris_fits=0, louvain_fits=0, d25=0)
+    stats = dict(paris_fits=0, louvain_fits=0, d25=0, hangs=0)
+    MAX_HANGS = 3      # every hang costs a time-out and a worker restart: stop searching once it is established
 
     def report_invalid(site, attr, res, case, n, extra):
         kind, detail = res
@@ -369,16 +416,25 @@ def run(ctx, scratch):
         # =====================================================================================================
         # 1. ORACLE on the three algorithms
         # =====================================================================================================
-        def paris_case(fam, n, coo, n1=None, n2=None, directed=False):
+        def paris_case(fam, n, coo, n1=None, n2=None, directed=False, runs=None, timeout=15, cause='nearest_neighbour_chain'):
             """All four (weights, reorder) combinations on one matrix."""
             bip = n1 is not None
             m = spec(n1, n2, coo) if bip else spec(n, n, coo)
-            runs = [dict(weights=w, reorder=ro) for w in ('degree', 'uniform') for ro in (False, True)]
-            r = impl.call('c07', 'fit_many', dict(algo='Paris', m=m, runs=runs, force_bipartite=bip), timeout=60)
+            if stats['hangs'] >= MAX_HANGS:
+                return None
+            runs = runs or [dict(weights=w, reorder=ro) for w in ('degree', 'uniform') for ro in (False, True)]
+            r = impl.call('c07', 'fit_many', dict(algo='Paris', m=m, runs=runs, force_bipartite=bip), timeout=timeout)
             ctx.traces += len(runs)
             stats['paris_fits'] += len(runs)
             nontrivial = len(coo) > 0
             ctx.count('oracle:Paris:' + fam, ('Paris', m), nontrivial, n=len(runs))
+            if r.get('hang'):
+                stats['hangs'] += 1
+                ctx.violation('Paris', 'fit does not return within %g s on a %d-node graph (the nearest-neighbour chain cycles)' % (timeout, n),
+                              case=dict(algo='Paris', runs=runs, m=m, family=fam), expected='a dendrogram (a fit on a graph of this '
+                              'size takes milliseconds)', observed='no answer; worker killed after the time-out', kind='hang',
+                              cause=cause, family=fam)
+                return None
             if 'ok' not in r:
                 ctx.violation('Paris', 'fit did not return', case=dict(m=m), observed=r, kind='no_result', family=fam)
                 return None
@@ -399,6 +455,11 @@ def run(ctx, scratch):
         # corpus first
         for name, n, E in CORPUS:
             paris_case('corpus_' + name, n, und(E))
+        # near-tie search (termination of the chain depends on the exact, smallest-index tie rule): supervised, short time-out
+        for _ in range(80 if quick else 600):
+            n, E, mode = near_tie(rng)
+            paris_case('near_tie_' + mode, n, und(E), runs=[dict(weights='degree', reorder=True), dict(weights='uniform', reorder=True)],
+                       timeout=4, cause='tie_rule')
         # all undirected graphs on n <= 4 nodes with at least one edge, sampled n = 5
         for n in (2, 3, 4):
             for E in gen.all_undirected(n):
@@ -574,6 +635,9 @@ def run(ctx, scratch):
         # =====================================================================================================
         # 3. CORRESPONDENCE: Paris
         # =====================================================================================================
+        paris_corr = stats['hangs'] < MAX_HANGS
+        if not paris_corr:
+            ctx.notes.append('Paris hangs (reported above): the Paris correspondence runs are skipped')
         pc = []
         for name, n, E in CORPUS:
             pc.append(('corpus_' + name, n, und(E)))
@@ -593,6 +657,8 @@ def run(ctx, scratch):
                 seen[(i, j)] = w
                 coo.append([i, j, w])
             pc.append(('rnd_' + fam, n, coo))
+        if not paris_corr:
+            pc = []
         exprs, meta = [], []
         for (fam, n, coo) in pc:
             for degree in (True, False):
@@ -654,10 +720,11 @@ def run(ctx, scratch):
                               case=dict(algo='Paris', opts=opts, m=spec(n, n, coo), family=fam),
                               expected=[[a, b, float(h), s] for a, b, h, s in exp] if isinstance(exp, list) else exp,
                               observed=r, kind='model_mismatch', model='ieee')
-        ctx.sample(dict(kind='Paris_ieee', case=meta[0][:3], model=[[a, b, float(h), s] for a, b, h, s in frac_rows(vals[0][1][0])]))
+        if meta:
+            ctx.sample(dict(kind='Paris_ieee', case=meta[0][:3], model=[[a, b, float(h), s] for a, b, h, s in frac_rows(vals[0][1][0])]))
 
         # ---- bipartite: fit on the block adjacency + _split_vars (IEEE model, exact comparison)
-        pb = [b for b in bips if b[0] + b[1] <= 7][: (25 if quick else 150)]
+        pb = [b for b in bips if b[0] + b[1] <= 7][: (25 if quick else 150)] if paris_corr else []
         exprs = ['cvb (paris_src_bipartite src_rounding %s true true %d %d %s)' % (cq(HINF), r_, c_, centries(coo)) for (r_, c_, coo) in pb]
         vals = coq_eval('c07pb', IMPORTS, exprs, prelude=PRELUDE, shard=6)
         for (r_, c_, coo), v in zip(pb, vals):
@@ -720,8 +787,11 @@ def run(ctx, scratch):
 
     ctx.extra['fits'] = stats
     ctx.extra['d25_reproduced_on'] = stats['d25']
+    ctx.extra['paris_hangs'] = stats['hangs']
     ctx.rule = ('oracle: Paris x {degree, uniform} x {reorder on, off} and LouvainHierarchy / LouvainIteration x sampled '
-                '(resolution, shuffle_nodes + random_state, depth) on: the D25 corpus, all undirected graphs on n <= 4 nodes with '
+                '(resolution, shuffle_nodes + random_state, depth) on: the D25 corpus, a near-tie search (triangles / 4-cliques with weights '
+                '1 + k*1.4e-6 at index placements biased to decreasing / equal residues mod 8 in graphs of 8..32 nodes, 4 s time-out: '
+                'a hang is a violation), all undirected graphs on n <= 4 nodes with '
                 '>= 1 edge, sampled n = 5, 13 structured random families of harness/gen.py with unit / small-integer / dyadic '
                 'weights (disconnected, isolated nodes, self-loops, cliques, stars, ...), directed graphs, single-cluster graphs '
                 '(stars, cliques, [[1,1],[1,0]]), rectangular biadjacency matrices (all 0/1 up to 2x3 + random), and for Paris '
